@@ -73,6 +73,8 @@ type FnVC struct {
 	pendingSite      string
 	immut            map[*ssa.Alloc]ssa.Value
 	siteOrd          map[ssa.Instruction]int
+	lenient          bool     // salvage mode after a shape mismatch: call-site clauses that cannot be bound are skipped (recorded in skipped)
+	skipped          []string
 	cellOf           map[types.Object]ssa.Value // variables that live in a cell (closure-captured or address-taken)
 	curIdx           int
 	lastCalleeGhosts map[string]TV
@@ -1310,6 +1312,11 @@ func zeroLike(tv TV) Term {
 func (vc *FnVC) applyGhost(env *Env, g GhostUpdate, m *Mem) *Mem {
 	v, err := env.tr(g.Value)
 	if err != nil {
+		if vc.lenient {
+			// salvage mode: the ghost keeps an arbitrary value from here on
+			vc.skipped = append(vc.skipped, fmt.Sprintf("ghost update %q: %v", g.Text, err))
+			return m.havoc(map[string]bool{"G$" + ghostTargetName(g.Target): true}, nil)
+		}
 		panic(unsupported{fmt.Sprintf("ghost update %q: %v", g.Text, err)})
 	}
 	switch t := g.Target.(type) {
